@@ -12,6 +12,9 @@ use did_url_parser::DID as BaseDIDUrl;
 
 use identity_core::common::KeyComparable;
 
+use crate::did_url::is_char_fragment;
+use crate::did_url::is_char_path;
+use crate::did_url::is_char_query;
 use crate::DIDUrl;
 use crate::Error;
 
@@ -100,7 +103,7 @@ pub trait DID:
 
 #[derive(Clone, PartialEq, Eq, PartialOrd, Ord, Hash, serde::Deserialize, serde::Serialize)]
 #[repr(transparent)]
-#[serde(into = "BaseDIDUrl", try_from = "BaseDIDUrl")]
+#[serde(into = "BaseDIDUrl", try_from = "String")]
 /// A wrapper around [`BaseDIDUrl`](BaseDIDUrl).
 pub struct CoreDID(BaseDIDUrl);
 
@@ -111,7 +114,7 @@ impl CoreDID {
   ///
   /// Returns `Err` if the input is not a valid [`DID`].
   pub fn parse(input: impl AsRef<str>) -> Result<Self, Error> {
-    BaseDIDUrl::parse(input).map(Self).map_err(Error::from)
+    parse_base_did_url(input.as_ref()).map(Self)
   }
 
   /// Set the method name of the [`DID`].
@@ -132,6 +135,8 @@ impl CoreDID {
   /// Set the method-specific-id of the [`DID`].
   pub fn set_method_id(&mut self, value: impl AsRef<str>) -> Result<(), Error> {
     Self::valid_method_id(value.as_ref())?;
+    // The resulting DID has to remain parsable.
+    check_parser_input(&format!("{}:{}:{}", Self::SCHEME, self.method(), value.as_ref()))?;
     self.0.set_method_id(value);
     Ok(())
   }
@@ -277,6 +282,74 @@ pub(crate) const fn is_char_method_name(ch: char) -> bool {
 #[inline(always)]
 pub(crate) const fn is_char_method_id(ch: char) -> bool {
   matches!(ch, '0'..='9' | 'a'..='z' | 'A'..='Z' | '.' | '-' | '_' | ':')
+}
+
+/// Parses `input` with the `did_url_parser` crate after checking that the parser can handle it.
+pub(crate) fn parse_base_did_url(input: &str) -> Result<BaseDIDUrl, Error> {
+  check_parser_input(input)?;
+  BaseDIDUrl::parse(input).map_err(Error::from)
+}
+
+/// Rejects strings which `did_url_parser` (0.3) is known to handle incorrectly.
+///
+/// - The parser trims surrounding whitespace and control characters before computing the positions of the components
+///   but stores the untrimmed string, so that the components of the parsed value are shifted.
+/// - It accepts `%` followed by any two characters that [`u8::from_str_radix`] understands (e.g. `%+f`) instead of
+///   `pct-encoded = "%" HEXDIG HEXDIG`.
+/// - It consumes the character following a percent-encoded character without looking at it. That swallows
+///   delimiters and illegal characters and, when the method-specific-id ends in a percent-encoded character, makes
+///   the parser panic by slicing past the end of the input.
+///
+/// As a consequence a percent-encoded character has to be followed by another character of the same component;
+/// only the path, query or fragment that ends the input may also end in a percent-encoded character.
+pub(crate) fn check_parser_input(input: &str) -> Result<(), Error> {
+  let is_trimmed_by_parser = |ch: char| ch.is_ascii_control() || ch.is_ascii_whitespace();
+  if input.starts_with(is_trimmed_by_parser) || input.ends_with(is_trimmed_by_parser) {
+    return Err(Error::Other("leading or trailing whitespace or control character"));
+  }
+
+  #[derive(Clone, Copy, PartialEq, PartialOrd)]
+  enum Component {
+    Did,
+    Path,
+    Query,
+    Fragment,
+  }
+
+  let bytes: &[u8] = input.as_bytes();
+  let mut component: Component = Component::Did;
+  for (index, byte) in bytes.iter().enumerate() {
+    match byte {
+      b'/' if component == Component::Did => component = Component::Path,
+      b'?' if component < Component::Query => component = Component::Query,
+      b'#' if component < Component::Fragment => component = Component::Fragment,
+      b'%' => {
+        let is_hex_digit =
+          |offset: usize| matches!(bytes.get(index + offset), Some(digit) if digit.is_ascii_hexdigit());
+        let is_followed_by_component_char: bool = match bytes.get(index + 3).map(|next| char::from(*next)) {
+          Some('%') => true,
+          Some(next) => match component {
+            Component::Did => is_char_method_id(next),
+            Component::Path => is_char_path(next),
+            Component::Query => is_char_query(next),
+            Component::Fragment => is_char_fragment(next),
+          },
+          None => component != Component::Did,
+        };
+        if !is_hex_digit(1) || !is_hex_digit(2) || !is_followed_by_component_char {
+          return Err(match component {
+            Component::Did => Error::InvalidMethodId,
+            Component::Path => Error::InvalidPath,
+            Component::Query => Error::InvalidQuery,
+            Component::Fragment => Error::InvalidFragment,
+          });
+        }
+      }
+      _ => {}
+    }
+  }
+
+  Ok(())
 }
 
 impl<D> DID for D where
